@@ -159,10 +159,12 @@ def run(ctx, exe, ytree, d):
         files[path] = text
         return c
     for i, (mr, mc, F) in enumerate(plan):
-        cals = [G.gen_cal(rng, "L%d" % i, "E12", (mr, mc), F=F)]
+        # hostile names (spaces, colons, quotes, UTF-8, a newline, YAML keywords): name_text is assumed for every string
+        nm = rng.sample(G.NAMES, 2)
+        cals = [G.gen_cal(rng, nm[0], "E12", (mr, mc), F=F)]
         if i % 2:
             r2 = rng.randint(1, 4)
-            cals.append(G.gen_cal(rng, "M%d" % i, "E12", (r2, rng.randint(1, r2)), F=rng.choice([0, 1, 2])))
+            cals.append(G.gen_cal(rng, nm[1], "E12", (r2, rng.randint(1, r2)), F=rng.choice([0, 1, 2])))
         for c in cals:
             c["props"] = "absent" if i % 3 == 0 else G.gen_props(rng, hostile=False)
             if c["z0"] is None:
